@@ -731,6 +731,18 @@ pub fn check_c18(_case: &Case, h: &History) -> Vec<Violation> {
         if ended_here && matches!(end, Some(Event::Fuel)) {
             continue;
         }
+        if ended_here && end.is_none() {
+            // the simulator stopped a run that would never have ended: the service kept asking
+            // for input at end of input
+            let eofs = evs.iter().filter(|e| matches!(e, Event::Line { who: Who::Service, res: LineRes::Eof })).count();
+            if eofs >= 64 {
+                v.push(Violation::new(
+                    format!("C18:svc_spin_at_eof{{{}}}", tag),
+                    format!("int {:#x} AH={:#04x} asked for input {} times at end of input and never returned", int_no, ah, eofs),
+                ));
+            }
+            continue;
+        }
         let mut svc_out = Vec::new();
         let mut any_out = String::new();
         let mut reads: Vec<&LineRes> = Vec::new();
